@@ -198,3 +198,55 @@ func H_C10T_two_by_two() {
 	vAssert(any, "C10 2x2: results and final state agree with some interleaving that respects program order")
 	vReach("end")
 }
+
+// ---- round 4 ----
+
+// the same pairs on a cache whose rebuild counter stands at the threshold (2c+1 Store/Delete pairs on a private
+// key beforehand: the next removal rebuilds the index) or one before it; additionally every key stays loadable
+// after the goroutines have finished (a Store that returned and was not deleted or evicted is found)
+func vC10TwoAt(ka, kb int) {
+	c, items := vC10Pre()
+	pump := 2*c + vndChoice("pump", 2)
+	var log []vKV
+	l := vMkLRU(c, items, pump, &log)
+	a := &vOp{kind: ka, k: vC10Key("ka"), v: 77}
+	b := &vOp{kind: kb, k: vC10Key("kb"), v: 88}
+	vGo(func() { a.run(l) })
+	vGo(func() { b.run(l) })
+	vJoin()
+	dump, n := l.Dump(), l.Len()
+	r1 := vCopyRef(c, items)
+	ok1 := a.refRun(r1)
+	ok1 = b.refRun(r1) && ok1
+	ok1 = ok1 && vMatches(dump, n, r1)
+	r2 := vCopyRef(c, items)
+	ok2 := b.refRun(r2)
+	ok2 = a.refRun(r2) && ok2
+	ok2 = ok2 && vMatches(dump, n, r2)
+	tag := "C10 " + vOpNames[ka] + "||" + vOpNames[kb] + " at the rebuild threshold"
+	vAssert(ok1 || ok2, tag+": results and final state agree with some sequential order")
+	vAssert(n >= 0 && n <= c, tag+": capacity bound and consistency at quiescence")
+	// afterwards, sequentially: the live keys of the matching order are all found, the others are not
+	ref := r1
+	if !ok1 {
+		ref = r2
+	}
+	if ok1 || ok2 {
+		for k := 1; k <= 3; k++ {
+			live := ref.find(k) >= 0
+			_, hit := l.Load(k)
+			vAssert(hit == live, tag+": afterwards a key is found exactly when it is live")
+		}
+		vAssert(l.Len() == len(ref.items), tag+": Len afterwards")
+	}
+	vReach("end")
+}
+
+func H_C10_at_store_store()   { vC10TwoAt(0, 0) }
+func H_C10_at_store_delete()  { vC10TwoAt(0, 2) }
+func H_C10_at_delete_delete() { vC10TwoAt(2, 2) }
+func H_C10_at_store_load()    { vC10TwoAt(0, 1) }
+func H_C10_at_delete_load()   { vC10TwoAt(2, 1) }
+func H_C10_at_store_len()     { vC10TwoAt(0, 3) }
+func H_C10_at_delete_len()    { vC10TwoAt(2, 3) }
+func H_C10_at_delete_dump()   { vC10TwoAt(2, 4) }
